@@ -92,10 +92,8 @@ def dontcare(cfg, act):
     for si, k in enumerate(cfg["shape"]):
         s = si + 1
         if k > 0:
-            cm = [m for m in range(1, k + 1) if (s, m) in consume]
-            if cm:
-                for m in range(min(cm) + 1, k + 1):
-                    dc.add((s, m))
+            # (members of a group AFTER its first consuming member are not shown the event - "until a layer consumes it" - as the
+            # specification's GroupSee says; they used to be exempt from the comparison)
             if act.get("name") == "Event" and act["l"][0] == s and act["l"][1] > 0:
                 for m in range(1, k + 1):
                     dc.add((s, m))
@@ -140,9 +138,7 @@ def run_case(run, g, ei, variant):
     src, act, dst = g.edges[ei]
     cfg = g.states[src]["cfg"]
     LOG = []
-    Q = ys.YowStack._YowStack__detachedQueue
-    while Q.qsize():
-        Q.get(False)
+    core.drain_detached()
     chain = [act]
     try:
         st, classes = build_stack(cfg, LOG, variant)
@@ -391,6 +387,51 @@ def interface_lookup_exact(run):
             run.violation("interface:exception:%s" % type(e).__name__, "stack %s: interface lookup raised %r" % (name, e), {"shape": name})
 
 
+def deferred_in_order(run):
+    """Deferred events are delivered when the stack's loop runs - in the order in which they were deferred: two (three) detached events
+    emitted one after the other, and callbacks handed to execDetached, reach the layers above oldest first, one per loop turn."""
+    import yowsup.stacks.yowstack as ys
+    from yowsup.layers import YowLayer, YowLayerEvent
+    from yowsup.stacks import YowStack
+    for nev in (2, 3):
+        for how in ("events", "callbacks", "mixed"):
+            run.case(("deferred-order", nev, how))
+            run.cov["traces_validated_against_impl"] += 1
+            core.drain_detached()
+            seen = []
+
+            class L(YowLayer):
+                def onEvent(self, ev):
+                    if ev.getName().startswith("verif.deferred."):
+                        seen.append((self.__class__.__name__, ev.getName().rsplit(".", 1)[1]))
+                    return False
+            Bottom, Mid, Top = type("Bottom", (L,), {}), type("Mid", (L,), {}), type("Top", (L,), {})
+            st = YowStack((Bottom, Mid, Top), reversed=False)
+            want = []
+            for i in range(nev):
+                name = "e%d" % i
+                if how == "events" or (how == "mixed" and i % 2 == 0):
+                    st.getLayer(0).emitEvent(YowLayerEvent("verif.deferred.%s" % name, detached=True))
+                    want.append(("Top", name))
+                else:
+                    st.execDetached(lambda name=name: seen.append(("callback", name)))
+                    want.append(("callback", name))
+            sync = list(seen)
+            turns = []
+            for _ in range(nev + 2):
+                before = len(seen)
+                try:
+                    st.loop()
+                except _StopLoop:
+                    pass
+                turns.append(len(seen) - before)
+            deferred = [x for x in seen[len(sync):]]
+            core.drain_detached()
+            if deferred != want or turns[:nev] != [1] * nev or any(turns[nev:]):
+                run.violation("propagation:deferred-order:%s" % how, "%d deferred %s, then the loop: delivered %s (per turn %s), expected %s one per turn; synchronously seen %s" % (
+                    nev, how, deferred, turns, want, sync), {"n": nev, "how": how})
+
+
 def subclass_event_handlers(run):
     """Event handlers are per class: a layer class and a subclass that adds / overrides handlers may both be instantiated in one
     process, in either order, and each instance sees exactly the events its own class handles."""
@@ -489,6 +530,7 @@ def run():
                       "members of a group after a consuming member, and siblings of an emitting member, are compared as don't-care (at most once)"]
     interface_lookup_exact(r)
     subclass_event_handlers(r)
+    deferred_in_order(r)
     return r.finish()
 
 
